@@ -44,6 +44,11 @@ def model_check(ctx):
                          constants={"MaxOps": ctx.pick(4, 5), "MaxLen": 2, "Snaps": "TRUE"}, coverage=True,
                          timeout=ctx.pick(900, 2400), label="snapshots")
     ctx.check_coverage(rs, ["Freeze", "AnySnapRead", "AnySnapWrite"])
+    # with the depth-3 dictionary (GetDB with one key, two keys at once, two chained calls)
+    rd = ctx.model_check("data", "MC_Containers", "MC_Containers.cfg",
+                         constants={"MaxOps": ctx.pick(3, 4), "MaxLen": 2, "Snaps": "FALSE", "Deep": "TRUE"}, coverage=True,
+                         timeout=ctx.pick(900, 2400), label="depth-3 dictionary")
+    ctx.check_coverage(rd, ["DictSet", "DictGet", "DictDelete"], allow_zero=("Freeze", "AnySnap"))
     # the same for the containers of system SCOREs (service/scoredb: type part 0x00/0x01/0x02, one shared name)
     ctx.model_check("data", "MC_Containers", "MC_Containers.cfg",
                     constants={"MaxOps": ctx.pick(4, 6), "MaxLen": 2, "Universe": '"scoredb"', "BType": '"hash"', "Snaps": "FALSE"},
@@ -86,7 +91,7 @@ def replay(ctx):
                                      constants=dict(cs, MaxOps=2, Depth=2), timeout=900)
             wl = ctx.pick(16, 30)
             cb += ctx.behaviours("data", "Gen_Containers", "Gen_Containers.cfg",
-                                 constants=dict(cs, MaxOps=wl, Depth=wl),
+                                 constants=dict(cs, MaxOps=wl, Depth=wl, Deep="TRUE"),
                                  simulate="num=%d" % ctx.pick(60, 600), depth=wl + 1, seed=ctx.seed + i,
                                  timeout=900)
     if kb:
